@@ -16,6 +16,7 @@
 #if defined(CNL_IOSTREAMS_ENABLED)
 #include <ostream>
 #endif
+#include <type_traits>
 
 /// compositional numeric library
 namespace cnl {
@@ -24,7 +25,12 @@ namespace cnl {
         template<any_wrapper N>
         auto& operator<<(std::ostream& o, N const& i)
         {
-            return o << to_rep(i);
+            if constexpr (std::is_integral_v<rep_of_t<N>> && sizeof(rep_of_t<N>) == 1) {
+                // a number whose representation is a character type is still a number
+                return o << static_cast<int>(to_rep(i));
+            } else {
+                return o << to_rep(i);
+            }
         }
 #endif
     }
